@@ -6,6 +6,7 @@ mod util;
 
 mod c01;
 mod c02;
+mod c03;
 mod c19;
 mod prog;
 
@@ -101,6 +102,7 @@ fn main() {
     match family.as_str() {
         "c01" => c01::run(&ctx),
         "c02" => c02::run(&ctx),
+        "c03" => c03::run(&ctx),
         "c19" => c19::run(&ctx),
         "c19dump" => c19::dump(&ctx),
         _ => {
@@ -115,6 +117,7 @@ fn roles(args: &[String]) -> i32 {
     match args.first().map(|s| s.as_str()) {
         Some("c01-sender") => c01::role_sender(&args[1..]),
         Some("c02-sender") => c02::role_sender(&args[1..]),
+        Some("c03-holder") => c03::role_holder(&args[1..]),
         Some("lsfd") => {
             // unrelated child: print inherited descriptors
             for (fd, t) in util::fd_table() {
